@@ -2887,6 +2887,8 @@ func (d *Document) parseTableCell(decoder *xml.Decoder, startElement xml.StartEl
 	cell := &TableCell{
 		Paragraphs: make([]Paragraph, 0),
 	}
+	// 段落('p')与嵌套表格('t')出现的先后顺序
+	order := make([]byte, 0, 2)
 
 	for {
 		token, err := decoder.Token()
@@ -2912,6 +2914,7 @@ func (d *Document) parseTableCell(decoder *xml.Decoder, startElement xml.StartEl
 				}
 				if para != nil {
 					cell.Paragraphs = append(cell.Paragraphs, *para)
+					order = append(order, 'p')
 				}
 			case "tbl":
 				// 解析嵌套表格
@@ -2921,6 +2924,7 @@ func (d *Document) parseTableCell(decoder *xml.Decoder, startElement xml.StartEl
 				}
 				if nested != nil {
 					cell.Tables = append(cell.Tables, *nested)
+					order = append(order, 't')
 				}
 			default:
 				if err := d.skipElement(decoder, t.Name.Local); err != nil {
@@ -2929,6 +2933,10 @@ func (d *Document) parseTableCell(decoder *xml.Decoder, startElement xml.StartEl
 			}
 		case xml.EndElement:
 			if t.Name.Local == "tc" {
+				// 只有嵌套表格出现在某个段落之前时才需要记录顺序（默认即先段落后表格）
+				if strings.Contains(string(order), "tp") {
+					cell.ContentOrder = string(order)
+				}
 				return cell, nil
 			}
 		}
